@@ -370,6 +370,31 @@ def position_primitives_rule(program, res, rule="C18-S4"):
         raise AnalysisError("Pandas _extend_step: cumcount() use not found")
 
 
+def limit_domain_rule(program, res, rule="C18-S5"):
+    """`limit=k` means "the first k rows": the back ends agree on that only for k >= 0 (Pandas head(-1) drops the last row, SQL LIMIT -1 means
+    no limit, Polars raises) — the constructor has to refuse a negative limit"""
+    from .. import cfg as cfgmod
+    init = program.method("view_representations", "OrderRowsNode", "__init__", inherited=False)
+    res.analysed(init)
+    g = cfgmod.build(init.node)
+    guards = []
+    for t in g.stmt_nodes(("test",)):
+        for c in ast.walk(t.cond):
+            if isinstance(c, ast.Compare) and len(c.ops) == 1 and isinstance(c.ops[0], (ast.Lt, ast.LtE, ast.Gt, ast.GtE)) \
+                    and "limit" in {n.id for n in ast.walk(c) if isinstance(n, ast.Name)} \
+                    and any(isinstance(x, ast.Constant) and x.value in (0, 1, -1) for x in (c.left, c.comparators[0])):
+                raising = any(g.nodes[x].kind == "raise" for (s_, lab) in t.succ if lab is True for x in (g.reachable_from(s_, avoid={t.id}) | {s_})
+                              if g.nodes[x].kind in ("raise",))
+                if raising or isinstance(t.stmt, ast.Assert):
+                    guards.append(t)
+    if guards:
+        res.ok(rule, "OrderRowsNode refuses a negative limit")
+    else:
+        res.fail_at(rule, init, "negative-limit-accepted",
+                    "OrderRowsNode.__init__ stores any integral limit: order_rows(['x'], limit=-1) returns all but the last row on Pandas (head(-1)), every row on SQLite "
+                    "(LIMIT -1) and raises on Polars — three different answers for one accepted pipeline")
+
+
 def run(program, res, tier):
     res.rule("C18-S1", "index-clean typestate of every Pandas step (returned frames, positional attachments)")
     res.rule("C18-S2", "sort-direction flags have the right polarity and iterate the sort keys")
@@ -379,3 +404,5 @@ def run(program, res, tier):
     _s3(program, res)
     res.rule("C18-S4", "row-numbering primitives only under an ordered window")
     position_primitives_rule(program, res)
+    res.rule("C18-S5", "a limit is a non-negative row count")
+    limit_domain_rule(program, res)
